@@ -265,6 +265,12 @@ def _apply_loop_contracts(src, ed, loops, blk, canary):
             if l.kind != 'for':
                 raise LiftError(f'{src.rel}: loop {k} is `{l.kind}`, contract expects `for`')
             ed.insert(sig[l.in_idx].end, f" {spec['binder']}:", 'R0-binder')
+        if spec.get('iter_wrap'):
+            if l.kind != 'for':
+                raise LiftError(f'{src.rel}: loop {k}: iter_wrap needs a `for` loop')
+            ed.insert(sig[l.in_idx].end, f" {spec['iter_wrap']}(", 'R13')
+            ed.insert(sig[l.open_idx].start, ') ', 'R13')
+            _log_missing.append(f"R13 {src.rel}:{src.line_of(sig[l.kw_idx].start)} iterable of `for` loop {k} routed through {spec['iter_wrap']}")
         pieces = []
         for sec, kw in (('invariant_except_break', 'invariant_except_break'), ('invariant', 'invariant'),
                         ('loop_ensures', 'ensures'), ('decreases', 'decreases')):
@@ -676,7 +682,7 @@ def lift_block(blk, log, meta, canary=False):
     return segs
 
 
-def assemble(template_path, canary=False, extra_shims=None, havoc_decls=None):
+def assemble(template_path, canary=False, extra_shims=None, havoc_decls=None, degrade=False):
     """Return (text, linetable, meta). linetable[i] describes output line i+1."""
     text = open(template_path, encoding='utf-8').read()
     # shared contract fragments (the same lifted function + contract is verified in every unit that relies on it)
@@ -698,6 +704,13 @@ def assemble(template_path, canary=False, extra_shims=None, havoc_decls=None):
             segs.append(Seg(f'}}\n#[allow(unused_imports)] pub use {modname}::*;\n', tag='include'))
             meta['includes'].append('spec/' + val)
         else:
+            if degrade and val.kind in ('item', 'tail', 'loop', 'let'):
+                # degraded mode: the ghost text (invariants, hints, ghost lets) no longer type-checks against the lifted code
+                # (e.g. a local changed its type): judge the function on requires/ensures alone; termination measures stay
+                for k2, sp in val.loops.items():
+                    for sec in ('invariant', 'invariant_except_break', 'loop_ensures'):
+                        sp.pop(sec, None)
+                val.proofs = []
             if extra_shims and val.kind in ('item', 'tail', 'loop', 'let'):
                 for k, v in extra_shims.items():
                     val.shim_methods.setdefault(k, v)
